@@ -318,6 +318,121 @@ func (p *Prog) funcByName(rel, name string) *ssa.Function {
 	return sp.Func(name)
 }
 
+// FieldExact returns rel.T.f only if a field of exactly that name exists.
+func (p *Prog) FieldExact(rel, tn, fn string) *types.Var {
+	n := p.Named(rel, tn)
+	if n == nil {
+		return nil
+	}
+	st, ok := n.Underlying().(*types.Struct)
+	if !ok {
+		return nil
+	}
+	for i := 0; i < st.NumFields(); i++ {
+		if st.Field(i).Name() == fn {
+			return st.Field(i)
+		}
+	}
+	return nil
+}
+
+// MutexFields lists the fields of rel.T whose type is sync.Mutex or sync.RWMutex.
+func (p *Prog) MutexFields(rel, tn string) []string {
+	n := p.Named(rel, tn)
+	if n == nil {
+		return nil
+	}
+	st, ok := n.Underlying().(*types.Struct)
+	if !ok {
+		return nil
+	}
+	var out []string
+	for i := 0; i < st.NumFields(); i++ {
+		ts := types.TypeString(st.Field(i).Type(), nil)
+		if ts == "sync.Mutex" || ts == "sync.RWMutex" {
+			out = append(out, st.Field(i).Name())
+		}
+	}
+	return out
+}
+
+// FieldSet resolves a set of fields of rel.T. Names that no longer exist are
+// resolved as a set through their recorded types: if, for a type, the number of
+// missing names equals the number of fields of that type that no name of the
+// set (and no other recorded anchor) refers to, those fields are taken. Which
+// old name became which new name does not matter to a rule about a set (the
+// fields a mutex guards, the members of a tuple).
+func (p *Prog) FieldSet(rel, tn string, names []string) (fields []*types.Var, unresolved []string) {
+	n := p.Named(rel, tn)
+	if n == nil {
+		return nil, names
+	}
+	st, ok := n.Underlying().(*types.Struct)
+	if !ok {
+		return nil, names
+	}
+	taken := map[*types.Var]bool{}
+	missingByType := map[string][]string{}
+	for _, name := range names {
+		var f *types.Var
+		for i := 0; i < st.NumFields(); i++ {
+			if st.Field(i).Name() == name {
+				f = st.Field(i)
+			}
+		}
+		if f != nil {
+			p.logAnchor("V|"+rel+"|"+tn+"|"+name, fmt.Sprintf("%d|%s", fieldIndex(st, f), types.TypeString(f.Type(), nil)))
+			fields = append(fields, f)
+			taken[f] = true
+			continue
+		}
+		hint, ok := AnchorHints["V|"+rel+"|"+tn+"|"+name]
+		if !ok || token.IsExported(name) {
+			unresolved = append(unresolved, name)
+			continue
+		}
+		typ := hint[strings.IndexByte(hint, '|')+1:]
+		missingByType[typ] = append(missingByType[typ], name)
+	}
+	for typ, miss := range missingByType {
+		var cands []*types.Var
+		for i := 0; i < st.NumFields(); i++ {
+			f := st.Field(i)
+			if taken[f] || token.IsExported(f.Name()) || types.TypeString(f.Type(), nil) != typ {
+				continue
+			}
+			if _, named := AnchorHints["V|"+rel+"|"+tn+"|"+f.Name()]; named {
+				continue
+			}
+			cands = append(cands, f)
+		}
+		if len(cands) == len(miss) {
+			for _, f := range cands {
+				fields = append(fields, f)
+				taken[f] = true
+			}
+			sort.Strings(miss)
+			var nn []string
+			for _, f := range cands {
+				nn = append(nn, f.Name())
+			}
+			p.Renamed = append(p.Renamed, tn+".{"+strings.Join(miss, ",")+"} -> {"+strings.Join(nn, ",")+"}")
+		} else {
+			unresolved = append(unresolved, miss...)
+		}
+	}
+	return fields, unresolved
+}
+
+func fieldIndex(st *types.Struct, f *types.Var) int {
+	for i := 0; i < st.NumFields(); i++ {
+		if st.Field(i) == f {
+			return i
+		}
+	}
+	return -1
+}
+
 // Named returns the named type rel.T, or nil.
 func (p *Prog) Named(rel, tn string) *types.Named {
 	pk := p.Pkg(rel)
@@ -356,10 +471,27 @@ func (p *Prog) Field(rel, tn, fn string) *types.Var {
 		if i := strings.IndexByte(hint, '|'); i > 0 {
 			fmt.Sscanf(hint[:i], "%d", &idx)
 			typ = hint[i+1:]
-			if idx < st.NumFields() && types.TypeString(st.Field(idx).Type(), nil) == typ {
-				if _, named := AnchorHints["V|"+rel+"|"+tn+"|"+st.Field(idx).Name()]; !named {
-					p.Renamed = append(p.Renamed, tn+"."+fn+" -> "+tn+"."+st.Field(idx).Name())
-					return st.Field(idx)
+			// renamed and moved: the only unexported field of that type that no anchor names
+			var cands []*types.Var
+			for i := 0; i < st.NumFields(); i++ {
+				f := st.Field(i)
+				if token.IsExported(f.Name()) || types.TypeString(f.Type(), nil) != typ {
+					continue
+				}
+				if _, named := AnchorHints["V|"+rel+"|"+tn+"|"+f.Name()]; named {
+					continue
+				}
+				cands = append(cands, f)
+			}
+			if len(cands) == 1 {
+				p.Renamed = append(p.Renamed, tn+"."+fn+" -> "+tn+"."+cands[0].Name())
+				return cands[0]
+			}
+			// several fields of that type are unnamed: the one that kept the recorded position
+			for _, f := range cands {
+				if fieldIndex(st, f) == idx {
+					p.Renamed = append(p.Renamed, tn+"."+fn+" -> "+tn+"."+f.Name()+" (by position)")
+					return f
 				}
 			}
 		}
